@@ -35,9 +35,12 @@ def gen_case(seed, i):
     w = World()
     times = {}
     tvals = [T0_NS - k * 3600 * 10**9 - 500 * 10**6 for k in range(1, 5)]   # few values -> ties
+    # one case in twelve has a WIDE group (40..56 replicas, heavily tied timestamps and nesting levels): the
+    # quantifier says "sizes 2..N", and sorting / batching code behaves differently above a few dozen elements
+    wide = rng.random() < 0.085
     for g in range(rng.randint(1, 3)):
         n = rng.choice([5, 64, 700])
-        for k in range(rng.randint(2, 5)):
+        for k in range(rng.randint(40, 56) if (wide and g == 0) else rng.randint(2, 5)):
             d = rng.choice(roots) + rng.choice(["", "/a", "/a/b", "/a/b/c", "/x"])
             p = "%s/g%df%d" % (d, g, k)
             mt = rng.choice(tvals)
@@ -61,10 +64,10 @@ def gen_case(seed, i):
         rf = rng.choice([1, 2, 3])
         gflags += ["--rf-over", str(rf)]
     n = None
-    if rng.random() < 0.4:
-        n = rng.choice([1, 1, 2, 3])
+    if rng.random() < 0.4 or wide:
+        n = rng.choice([1, 1, 2, 3]) if not wide else rng.choice([5, 17, 25, 33])
         dflags += ["-n", str(n)]
-    prios = [rng.choice(PRIOS) for _ in range(rng.choice([0, 1, 1, 2, 3]))]
+    prios = [rng.choice(PRIOS) for _ in range(rng.choice([0, 1, 1, 2, 3]) if not wide else rng.choice([1, 2]))]
     for p in prios:
         dflags += ["--priority", p]
     pats = {}
